@@ -587,6 +587,13 @@ def _exact_regime(case, sel=None):
     D = pl * sum(x * (1 - x) for x in p)
     return D > 0 and (_pow2(D.numerator) and D.denominator == 1 or D.numerator == 1 and _pow2(D.denominator))
 
+def _mean_slack(flat):
+    """a mean of n^2 entries carries a summation error of up to ~n^2 ulp(max|G|) even when the exact mean cancels to 0 (estimated
+    frequencies: 1'G1 = 0): for matrices with entries beyond 2^11 (marker weights scaled up) the absolute part of the 2^-30 (1+|y|)
+    tolerance no longer covers it, and 2^-40 max|G| is added; ordinary matrices are compared exactly as before (slack 0)"""
+    mx = max([abs(x) for x in flat] or [Fraction(0)])
+    return Fraction(0) if mx <= 2 ** 11 else mx / 2 ** 40
+
 def _scale_tol(case, sel=None):
     """2^-30 times an a-priori bound S of the entries that follows from the INPUT alone (|Z| <= ploidy):
     weighted: ploidy^2 sum|w|;  VanRaden: m ploidy / sum p(1-p);  Yang: (1/m) sum ploidy / (p(1-p)).  Every rounding error of the
@@ -687,6 +694,7 @@ def emit_case(case, out):
     t, g = _labels(case)
     P = []
     P.append("mat_agree %s Gi G" % ex)
+    slack = E.q(_mean_slack([_fr(h) for r in out["G"] for h in r]))
     tl = _scale_tol(case)
     if tl is not None: P.append("mat_within %s Gi G" % E.q(tl))
     P.append("sopt_eqb %s (cm_taxa cm) && zopt_eqb %s (cm_grp cm)" % (E.opt(out["taxa"], lambda l: L1(l, E.s)), E.opt(out["grp"], lambda l: L1(l, E.z))))
@@ -695,11 +703,11 @@ def emit_case(case, out):
     P.append("mat_agree %s %s (mat_asformat Kinship G)" % (ex, L2(out["kin_mixedcase"], Q)))
     P.append("q_agree %s %s (coancestry G %d %d) && q_agree %s %s (kinship G %d %d)" % (ex, Q(out["c_ij"]), i, j, ex, Q(out["k_ij"]), i, j))
     for f, t_ in (("Coancestry", "c"), ("Kinship", "k")):
-        P.append("q_agree %s %s (max_all %s G) && q_agree %s %s (min_all %s G) && Qclose %s (mean_all %s G)"
-                 % (ex, Q(out["max_" + t_]), f, ex, Q(out["min_" + t_]), f, Q(out["mean_" + t_]), f))
+        P.append("q_agree %s %s (max_all %s G) && q_agree %s %s (min_all %s G) && mean_agree %s %s (mean_all %s G)"
+                 % (ex, Q(out["max_" + t_]), f, ex, Q(out["min_" + t_]), f, slack, Q(out["mean_" + t_]), f))
         for ax in (0, 1):
-            P.append("vec_agree %s %s (red_axis maxl %s %d G) && vec_agree %s %s (red_axis minl %s %d G) && qclose_l %s (red_axis meanl %s %d G)"
-                     % (ex, L1(out["max_%s%d" % (t_, ax)], Q), f, ax, ex, L1(out["min_%s%d" % (t_, ax)], Q), f, ax, L1(out["mean_%s%d" % (t_, ax)], Q), f, ax))
+            P.append("vec_agree %s %s (red_axis maxl %s %d G) && vec_agree %s %s (red_axis minl %s %d G) && meanl_agree %s %s (red_axis meanl %s %d G)"
+                     % (ex, L1(out["max_%s%d" % (t_, ax)], Q), f, ax, ex, L1(out["min_%s%d" % (t_, ax)], Q), f, ax, slack, L1(out["mean_%s%d" % (t_, ax)], Q), f, ax))
         P.append("q_agree %s %s (max_inbreeding %s G)" % (ex, Q(out["maxinb_" + t_]), f))
         P.append("inv_agree %s %s G Hc" % (_optmat(out["inv_" + t_]), f))
         P.append("mininb_agree %s %s G Hc" % (_optq(out["mininb_" + t_]), f))
@@ -889,12 +897,13 @@ def pred(case, out):
         if val("max_" + t) != c * max(flat): bad.append("max (%s)" % t)
         if val("min_" + t) != c * min(flat): bad.append("min (%s)" % t)
         mv = val("mean_" + t)
-        if mv is None or not _close(mv, c * sum(flat) / (n * n), Fraction(1, 10 ** 12)): bad.append("mean (%s)" % t)
+        slk = _mean_slack(flat) / 16
+        if mv is None or not (_close(mv, c * sum(flat) / (n * n), Fraction(1, 10 ** 12)) or abs(mv - c * sum(flat) / (n * n)) <= slk): bad.append("mean (%s)" % t)
         for ax in (0, 1):
             lines = [[G[a][b] for a in range(n)] for b in range(n)] if ax == 0 else G
             if [_fr(h) for h in out["max_%s%d" % (t, ax)]] != [c * max(l) for l in lines]: bad.append("max axis %d (%s)" % (ax, t))
             if [_fr(h) for h in out["min_%s%d" % (t, ax)]] != [c * min(l) for l in lines]: bad.append("min axis %d (%s)" % (ax, t))
-            if any(not _close(_fr(h), c * sum(l) / n, Fraction(1, 10 ** 12)) for h, l in zip(out["mean_%s%d" % (t, ax)], lines)) \
+            if any(not (_close(_fr(h), c * sum(l) / n, Fraction(1, 10 ** 12)) or abs(_fr(h) - c * sum(l) / n) <= slk) for h, l in zip(out["mean_%s%d" % (t, ax)], lines)) \
                or len(out["mean_%s%d" % (t, ax)]) != n: bad.append("mean axis %d (%s)" % (ax, t))
         if val("maxinb_" + t) != c * max(G[a][a] for a in range(n)): bad.append("max_inbreeding (%s) is not the largest diagonal entry" % t)
     if out["max_default"] != out["max_c"] or out["maxinb_default"] != out["maxinb_c"] or out["mininb_default"] != out["mininb_c"]:
